@@ -46,6 +46,14 @@ Theorem C05_traces_fresh : forall odfi es s,
 Proof. exact c05_traces_fresh. Qed.
 Print Assumptions C05_traces_fresh.
 
+(* ... and these are strictly ascending, the offsets' trace numbers included. *)
+Theorem C05_traces_ascending : forall b b', 0 <= b_odfi b ->
+  (b_off b <> None -> wf_entries offset_table (b_entries b) = true) ->
+  all_absent (b_odfi b) (b_entries b) = true -> Z.of_nat (length (b_entries b)) < P7 - 1 ->
+  build offset_table b = Ret true b' -> asc 0 (map e_trace (b_entries b')).
+Proof. exact c05_traces_ascending. Qed.
+Print Assumptions C05_traces_ascending.
+
 (* Calling Create again changes nothing: the second build returns the very same batch
    (entries, traces, control, header fields).  [b_entries b' <> []] holds whenever the
    batch validates (a batch all of whose entries were named OFFSET ends up empty). *)
@@ -101,6 +109,15 @@ Print Assumptions C05_history_file_stable.
 Theorem C05_file_idempotent : forall f f', file_create f = Ret true f' -> file_create f' = Ret true f'.
 Proof. exact c05_file_idempotent. Qed.
 Print Assumptions C05_file_idempotent.
+
+(* File.Create leaves a file control that is the tabulation of the batch controls (batch
+   count, block count, entry/addenda count, entry hash mod 10^10, totals) and does not touch
+   the entries. *)
+Theorem C05_file_create_valid : forall f f', file_create f = Ret true f' ->
+  f_ctl f' = file_control (f_batches f') /\ map b_entries (f_batches f') = map b_entries (f_batches f) /\
+  fc_batches (f_ctl f') = Z.of_nat (length (f_batches f)).
+Proof. exact c05_file_tabulates. Qed.
+Print Assumptions C05_file_create_valid.
 
 (* Batch numbers absent everywhere (<= 1) come out as 1, 2, 3, ... in header and control,
    and the file control is the tabulation of the batch controls.  (Partial with respect to
